@@ -285,6 +285,23 @@ func runC02(c *Ctx, r *Report, tier string) {
 				}
 			}
 		}
+		if ok && !okA {
+			// equivalent form: a per-iteration value that is the attached argument at byte offset 0 and nil otherwise
+			okA = len(ap.Edges) > 0
+			for i, e := range ap.Edges {
+				if isConstNil(e) {
+					continue
+				}
+				pred := ap.Block().Preds[i]
+				_, first := c.Requires(ps, isInstr(pred.Instrs[len(pred.Instrs)-1]), litEq("0", "runepos("+cluster+")", true), nil)
+				if l, has := c.edgeLitTo(pred, ap.Block()); has && (l.Pos && (l.Term == "eq(0, runepos("+cluster+"))" || l.Term == "eq(runepos("+cluster+"), 0)") || !l.Pos && l.Term == "nonzero(runepos("+cluster+"))") {
+					first = true
+				}
+				if c.term(e) != "phi{P3 | call:(*Parser).splitShortConcatArg(P0, P1, P2)#1}" || !first {
+					okA = false
+				}
+			}
+		}
 		r.Check(okA, "CLUSTER", psn, "attached argument only for the first option of a cluster", c.ipos(in), "argument = (inline | concatenated) on entry, nil on every back edge", "argument operand is "+trunc(c.term(call.Call.Args[5]), 160))
 	}
 	// the long form: canarg is exactly ¬OptionalArgument of the option found
